@@ -156,6 +156,8 @@ def shrink(program: dict, fails, *, budget_s=60.0, keep=None) -> dict:
                     redirect(s)
             if keep:
                 c = prune(c, set(keep))
+            if any(s_.get("src") is not None and s_.get("src") == s_.get("right") for s_ in c["stmts"]):
+                continue        # never create a self-join / self-union while shrinking
             if attempt(c):
                 progress = True
         # 2. shrink argument lists of verbs
